@@ -67,6 +67,7 @@ type lookupOpts struct {
 	loaded     bool // also observe the trie reloaded from its own bytes
 	keysObs    bool
 	mcheck     bool // C05: determinism and size of Marshal
+	extraQ     []string // further queries (e.g. tens of thousands of bytes long)
 }
 
 // McheckEv: Marshal is deterministic, its length is the advertised size, and
@@ -125,6 +126,11 @@ func runLookupCase(t *Tracer, m *Meta, r *rand.Rand, c *TrieCase, lo lookupOpts)
 		qs = lo.allQueries
 	} else {
 		qs = querySet(r, c.Keys, lo.qlimit)
+	}
+	if len(lo.extraQ) > 0 {
+		qs = append(qs, lo.extraQ...)
+		sort.Strings(qs)
+		qs = uniq(qs)
 	}
 	fp := floorWitness(c, qs)
 	phase := func(st *trie.SlimTrie, withTable bool) {
@@ -554,6 +560,18 @@ func genLookup(t *Tracer, m *Meta, prop, tier string, seed int64) {
 			c := &TrieCase{Keys: keys, Enc: enc, Vals: mkVals(r, prop, enc, len(keys)), Opt4: o4}
 			runLookupCase(t, m, r, c, lookupOpts{qlimit: 40, table: true, loaded: true, keysObs: true, mcheck: prop == "C05"})
 		}
+	}
+	// (3a) queries of tens of thousands of bytes (beyond 2^16 bytes and 2^19 bits) on a small
+	// and on a medium trie: a stored key followed by 70000 bytes, 66000 zero bytes, 66000 0xff
+	for i := 0; i < 2; i++ {
+		keys := genKeys(r, []string{"prefixes", "ascii"}[i], []int{6, 120}[i], 6)
+		enc := pickEnc(r, prop)
+		o4 := pickOpts(r, prop, 1)[0]
+		c := &TrieCase{Keys: keys, Enc: enc, Vals: mkVals(r, prop, enc, len(keys)), Opt4: o4}
+		huge := []string{keys[len(keys)/2] + randBytes(r, 70000, nil), string(make([]byte, 66000)), strings.Repeat("\xff", 66000),
+			keys[len(keys)-1] + strings.Repeat("\x00", 65536)}
+		runLookupCase(t, m, r, c, lookupOpts{qlimit: 20, table: true, loaded: i == 1, keysObs: true, extraQ: huge})
+		m.class("huge-queries")
 	}
 }
 
